@@ -904,6 +904,9 @@ class Interp:
                     base.attrs['_log'].append((_attr, a, k))
                     return base
                 return logged
+            if getattr(self, 'class_fields', None) and base.kind in self.class_fields and attr not in self.class_fields[base.kind]:
+                # the rule told the interpreter every attribute an instance of this class can carry: reading another one is what Python answers with AttributeError
+                raise Raised('AttributeError', None)
             raise AnalysisError(f'interpreter: stand-in {base!r} has no attribute `{attr}` (`{d}`)')
         if isinstance(base, dict) and attr in base:
             return base[attr]
